@@ -70,6 +70,7 @@ class C03(Property):
         cases = []
         for i in range(n):
             sysd = kg.rand_system(rng, tier)
+            sysd['alias'] = rng.random() < 0.2          # substances registered under keys != Substance.name
             subst, rxns, num = sysd['subst'], sysd['rxns'], sysd['num']
             r = rng.random()
             if i % 9 == 4:
@@ -166,7 +167,8 @@ class C03(Property):
                 steps.append({'do': 'sort_substances'})
             for _ in range(rng.randint(1, 2)):
                 steps.append(observe())
-        return {'op': 'history', 'subst': subst, 'rxns': sysd['rxns'], 'vars': vars_, 'num': num, 'steps': steps}
+        return {'op': 'history', 'subst': subst, 'rxns': sysd['rxns'], 'vars': vars_, 'num': num, 'steps': steps,
+                'alias': rng.random() < 0.2}
 
     @staticmethod
     def _apply_pure(state, st):
@@ -272,6 +274,14 @@ class C03(Property):
             m['rxns'] = [kg.readback(kg.mk_reaction(s, num), s) for s in c['rxns']]
         return m
 
+    @staticmethod
+    def _subst(c, keys):
+        """the `substances` argument: a list of keys, or (alias cases) an ordered mapping whose keys differ from Substance.name"""
+        if c.get('alias'):
+            from chempy import Substance
+            return OrderedDict((k, Substance('name_of_' + k)) for k in keys)
+        return list(keys)
+
     def _vars(self, c):
         return {k: kg.to_num(v, c['num']) for k, v in c['vars']}
 
@@ -316,7 +326,7 @@ class C03(Property):
             if op == 'history':
                 o = c['orig']
                 num = o['num']
-                rsys = ReactionSystem([kg.mk_reaction(s, num) for s in o['rxns']], list(o['subst']), checks=())
+                rsys = ReactionSystem([kg.mk_reaction(s, num) for s in o['rxns']], self._subst(o, o['subst']), checks=())
                 outs, j = [], 0
                 for st in o['steps']:
                     if st['do'] == 'obs':
@@ -332,7 +342,7 @@ class C03(Property):
                 return _mtx_line(get_coeff_mtx(c['substances'], [(OrderedDict(map(tuple, a)), OrderedDict(map(tuple, b)))
                                                                  for a, b in c['stoichs']]).tolist())
             rxns = [kg.mk_reaction(s, num) for s in c['rxns']]
-            rsys = ReactionSystem(rxns, list(c['keys']) if op in ('array_path', 'dcdt') else list(c['subst']), checks=())
+            rsys = ReactionSystem(rxns, self._subst(c, c['keys'] if op in ('array_path', 'dcdt') else c['subst']), checks=())
             return self._observe(rsys, c)
         except Exception as e:
             return exc_name(e)
@@ -376,7 +386,7 @@ class C03(Property):
         num = c['num']
         vars_ = self._vars(c)
         conc = {k: kg.to_frac(v) for k, v in vars_.items()}
-        rsys = ReactionSystem([kg.mk_reaction(s, num) for s in c['rxns']], list(c['subst']), checks=())
+        rsys = ReactionSystem([kg.mk_reaction(s, num) for s in c['rxns']], self._subst(c, c['subst']), checks=())
         state = {'subst': list(c['subst']), 'rxns': [dict(r) for r in c['rxns']]}
         for n, st in enumerate(c['steps']):
             if st['do'] != 'obs':
@@ -461,7 +471,7 @@ class C03(Property):
         if c['cstr'] is not None:
             cstr = (c['cstr']['fr'], OrderedDict(map(tuple, c['cstr']['fc'])))
         missing = self._needed_missing(specs, vars_, c['cstr'])
-        rsys = ReactionSystem(rxns, list(c['subst']), checks=())
+        rsys = ReactionSystem(rxns, self._subst(c, c['subst']), checks=())
         try:
             got = rsys.rates(vars_, substance_keys=c['keys'], cstr_fr_fc=cstr)
         except KeyError:
@@ -483,7 +493,7 @@ class C03(Property):
             return 'ReactionSystem.rates: d[%s]/dt = %s, sum of net*k*prod(c^nu)%s = %s' % (
                 k, gotf.get(k), ' + F*(c_feed - c)' if cstr else '', want.get(k))
         # independence of the order of the reaction list
-        prs = ReactionSystem([rxns[i] for i in c['perm']], list(c['subst']), checks=())
+        prs = ReactionSystem([rxns[i] for i in c['perm']], self._subst(c, c['subst']), checks=())
         got2 = {k: kg.to_frac(v) for k, v in prs.rates(vars_, substance_keys=c['keys'], cstr_fr_fc=cstr).items()}
         if got2 != gotf:
             return 'ReactionSystem.rates changes when the reaction list is permuted by %s' % c['perm']
